@@ -20,7 +20,10 @@ META = {
         'pre-evaluation and cleared in the solution before it is turned into '
         'defaults, and the output node is the last builder item; (order) the '
         'formula\'s arguments are reported in a sorted, ordered mapping that '
-        'is passed unchanged to the compiled pipe.'),
+        'is passed unchanged to the compiled pipe; (nomut) no code that runs '
+        'inside a compiled function writes in place to an object it did not '
+        'create - the frozen constants and the caller\'s arguments are the '
+        'same objects on every call.'),
     'not_decided': (
         'Soundness of pruning by blockers for all argument values (branch, '
         'error and shape changes).'),
@@ -357,4 +360,6 @@ def run(ctx):
         f.prop, f.rule = 'C08', 'C08.volatile'
     for o in v.obligations:
         o.rule = 'C08.volatile'
-    return [rule_unset(ctx), rule_freeze(ctx), rule_flag(ctx), r, v]
+    from .c07 import rule_nomut
+    return [rule_unset(ctx), rule_freeze(ctx), rule_flag(ctx), r, v,
+            rule_nomut(ctx, 'C08', 'C08.nomut')]
